@@ -22,6 +22,7 @@ import (
 	"sort"
 	"strings"
 	"time"
+	"unicode"
 
 	"github.com/grafana/regexp"
 
@@ -683,6 +684,12 @@ func (d *indexData) regexpToMatchTreeRecursive(r *syntax.Regexp, minTextSize int
 		if len(qs) == 0 {
 			return &noMatchTree{Why: "const"}, isEq, false, nil
 		}
+		if isEq && !alternativesAreOrderIndependent(r.Sub, caseSensitive) {
+			// The regexp engine prefers the earlier alternative, while
+			// overlapping candidates of an orMatchTree are resolved in favour
+			// of the longer one. Let the engine decide the match ranges.
+			isEq = false
+		}
 		return &orMatchTree{qs}, isEq, false, nil
 	case syntax.OpStar:
 		if r.Sub[0].Op == syntax.OpAnyCharNotNL {
@@ -690,6 +697,54 @@ func (d *indexData) regexpToMatchTreeRecursive(r *syntax.Regexp, minTextSize int
 		}
 	}
 	return &bruteForceMatchTree{}, false, false, nil
+}
+
+// alternativesAreOrderIndependent reports whether the alternatives of an
+// alternation are literals such that no alternative is a proper prefix of a
+// later one. Only then do all alternatives that match at a position have the
+// same length, so that it does not matter which of them is reported.
+func alternativesAreOrderIndependent(subs []*syntax.Regexp, caseSensitive bool) bool {
+	lits := make([][]rune, 0, len(subs))
+	folds := make([]bool, 0, len(subs))
+	for _, sub := range subs {
+		for sub.Op == syntax.OpCapture {
+			sub = sub.Sub[0]
+		}
+		if sub.Op != syntax.OpLiteral {
+			return false
+		}
+		lits = append(lits, sub.Rune)
+		folds = append(folds, !caseSensitive || sub.Flags&syntax.FoldCase != 0)
+	}
+	for i, a := range lits {
+		for j := i + 1; j < len(lits); j++ {
+			b := lits[j]
+			if len(a) >= len(b) {
+				continue
+			}
+			fold := folds[i] || folds[j]
+			isPrefix := true
+			for k := range a {
+				if a[k] != b[k] && !(fold && equalFoldRune(a[k], b[k])) {
+					isPrefix = false
+					break
+				}
+			}
+			if isPrefix {
+				return false
+			}
+		}
+	}
+	return true
+}
+
+func equalFoldRune(a, b rune) bool {
+	for r := unicode.SimpleFold(a); r != a; r = unicode.SimpleFold(r) {
+		if r == b {
+			return true
+		}
+	}
+	return a == b
 }
 
 type timer struct {
